@@ -530,6 +530,63 @@ func c17StressMain(arg string) {
 	for _, l := range listeners {
 		close(l.done)
 	}
+	// discovery through the file-system listener alone (no Refresh): a key file renamed into place, and one moved in
+	// from another directory, must be announced to a listener registered beforehand and be listed
+	if p.Listener && len(out.Problems) == 0 {
+		l3 := make(chan ethtypes.Address0xHex, 4096)
+		w3, err3 := fswallet.NewFilesystemWallet(ctx, conf, l3)
+		if err3 == nil && w3.Initialize(ctx) == nil {
+			for _, n := range []int64{930001, 930002} {
+				key := big.NewInt(n).FillBytes(make([]byte, 32))
+				kp := secp256k1.KeyPairFromBytes(key)
+				if n == 930002 && !isMeta {
+					// complete under its final name in another directory, then moved in
+					h := hx(kp.Address[:])
+					_ = os.WriteFile(path.Join(dir, h+".pwd"), []byte("pw"), 0o600)
+					src := path.Join(keyDir, h+".key.json")
+					_ = os.WriteFile(src, accts[0].doc, 0o600)
+					time.Sleep(5 * time.Millisecond)
+					_ = os.Rename(src, path.Join(dir, h+".key.json"))
+				} else {
+					writeAccount(acct{kp.Address, accts[0].doc}) // written under a temporary name, renamed into place
+				}
+				seen := false
+				deadline := time.After(6 * time.Second)
+			wait:
+				for {
+					select {
+					case a := <-l3:
+						if a == kp.Address {
+							seen = true
+							break wait
+						}
+					case <-deadline:
+						break wait
+					}
+				}
+				if !seen {
+					problem("a listener registered before the address appeared never received %s (file renamed into place, no Refresh)", kp.Address.String())
+				}
+				listed := false
+				accs3, _ := w3.GetAccounts(ctx)
+				for _, a := range accs3 {
+					if *a == kp.Address {
+						listed = true
+					}
+				}
+				if !listed {
+					problem("the account list does not converge to the matching files: %s (renamed into place) is missing without a Refresh", kp.Address.String())
+				}
+			}
+			c3 := make(chan struct{})
+			go func() { _ = w3.Close(); close(c3) }()
+			select {
+			case <-c3:
+			case <-time.After(10 * time.Second):
+				problem("Close did not return within 10s")
+			}
+		}
+	}
 	// closing while discovery is busy, several times over with fresh wallets on the same directory: Close must return
 	if p.Listener {
 		for round := 0; round < 8 && len(out.Problems) == 0; round++ {
